@@ -181,24 +181,39 @@ def run(chk):
         chk.ob("R2 HMAC", "R2|hmac_sha256|key-and-data-roles", okk and okd, where(hm), "new_from_slice(key = param 1): %s ; update(data = param 2): %s" % (okk, okd))
     hfs = hmac_functions(p)
     is_hmac = lambda x: is_call(x, "crypto::hmac_sha256") or is_call(x, "hmac_sha256")
-    if chk.require("R2 HMAC", "R2|hmac-functions", len(hfs) >= 1, "passkey_authenticator", "no function of the authenticator calls hmac_sha256"):
-        for ch in hfs:
-            chk.touched(ch)
-            nm = ch.path.rsplit("::", 1)[-1]
-            ro = param_roles(ch, creds="StoredHmacSecret", salts="HmacSecretSaltOrOutput", uv="bool")
-            if not chk.require("R2 HMAC", "R2|%s|roles" % nm, None not in ro.values(), where(ch), "parameters not identified by type (stored secrets, salts, uv flag): %s" % ro):
-                continue
-            P_c, P_s, P_uv = ("param", ro["creds"]), ("param", ro["salts"]), ("param", ro["uv"])
-            with_uv, without_uv = ("field", P_c, "cred_with_uv"), ("field", P_c, "cred_without_uv")
-            # the function's table in normal form (closures applied; callee bodies not expanded)
-            rws = normal.rows(S, ch, N, expand=False, deep=True)
+    # The key rule is stated on whichever body shows both the stored secrets and the uv flag: the function that calls
+    # hmac_sha256 when it takes them itself (`calculate_hmac_secret(creds, salts, .., uv)`), otherwise its callers' inlined
+    # views (a private selector + a keyed newtype: `CredRandom::select(creds, uv)?.outputs(salts, ..)`).  Every hmac_sha256
+    # call site of the crate must be covered by a body on which the rule holds.
+    from . import inline as _inl9
+    uv_index = {}          # function path -> index of its uv parameter (as identified by role)
+
+    def hmac_sites(V):
+        return {((blk.get("from") or V.path), (blk.get("from_bb") if blk.get("from") else bb)) for bb, blk in enumerate(V.blocks)
+                if not blk["cleanup"] and not blk.get("dead") and blk["term"] and blk["term"]["k"] == "call" and names.call_is(blk["term"], "crypto::hmac_sha256", "hmac_sha256")}
+
+    def key_rule(V, f):
+        """-> None when `f` shows no stored secrets / no bool; else dict(bad_key, bad_data, n_uv, n_nouv, n_err, n_calls, uv)"""
+        tys = [(i, (f.j["locals"][i].get("ty") or "")) for i in range(1, f.j.get("arg_count", 0) + 1)]
+        creds_i = [i for i, ty in tys if "StoredHmacSecret" in ty]
+        bools = [i for i, ty in tys if ty == "bool"]
+        if len(creds_i) != 1 or not bools:
+            return None
+        P_c = ("param", creds_i[0])
+        from_creds = lambda C: C == P_c or flow.is_payload_of(C, lambda y: y == P_c) or (isinstance(C, tuple) and has(C, lambda y: y == P_c) and not has(C, lambda y: isinstance(y, tuple) and len(y) == 3 and y[0] == "field"))
+        is_with = lambda k: isinstance(k, tuple) and len(k) == 3 and k[0] == "field" and k[2] == "cred_with_uv" and from_creds(k[1])
+        is_without_opt = lambda k: isinstance(k, tuple) and len(k) == 3 and k[0] == "field" and k[2] == "cred_without_uv" and from_creds(k[1])
+        is_without = lambda k: isinstance(k, tuple) and len(k) == 2 and k[0] == "payload" and is_without_opt(k[1])
+        rws = normal.rows(S, V, N, expand=False, deep=True)
+        best = None
+        for ui in bools:
+            P_uv = ("param", ui)
             bad_key, bad_data, n_uv, n_nouv, n_err, n_calls = [], [], 0, 0, 0, 0
             for o in rws:
-                uvc = [l for t, l, f, w in o.conds if t == P_uv]
+                uvc = [l for t, l, f_, w in o.conds if t == P_uv]
                 hs = [x for x in sub(o.value) if is_hmac(x)]
-                if o.variant[:1] == ("Ok",):
+                if o.variant[:1] == ("Ok",) or (not o.variant and hs):
                     if not hs:
-                        bad_data.append("an Ok row carries no HMAC output")
                         continue
                     if not uvc:
                         bad_key.append("an HMAC output is produced without testing the uv flag")
@@ -208,33 +223,84 @@ def run(chk):
                         n_uv += 1
                     else:
                         n_nouv += 1
-                        # the non-gated secret is present on this row
-                        if not any(flow.asserts_ok(t, l, lambda y: y == without_uv) for t, l, f, w in o.conds):
+                        if not any(flow.asserts_ok(t, l, is_without_opt) for t, l, f_, w in o.conds):
                             bad_key.append("¬uv row without the presence test of cred_without_uv")
+                    salts_x = set()
                     for h in hs:
                         n_calls += 1
-                        key, data = flow.strip_sites(h[2][0]), flow.strip_sites(h[2][1])
-                        exp = with_uv if uv_true else ("payload", without_uv)
-                        if N.norm(key) != exp and key != exp:
+                        key, data = N.norm(flow.strip_sites(h[2][0])), flow.strip_sites(h[2][1])
+                        while isinstance(key, tuple) and len(key) == 4 and key[0] == "call" and key[2] and any(names.is_(key[1], w_) for w_ in ("Deref::deref", "AsRef::as_ref", "Vec::as_slice", "Borrow::borrow", "Bytes::as_slice")):
+                            key = key[2][0]
+                        if not (is_with(key) if uv_true else is_without(key)):
                             bad_key.append("uv=%s row keyed with %s" % (uv_true, flow.term_str(key)[:80]))
-                        first = is_call(data, "HmacSecretSaltOrOutput::first") and data[2][0] == P_s
-                        second = isinstance(data, tuple) and data[:1] == ("payload",) and is_call(data[1], "HmacSecretSaltOrOutput::second") and data[1][2][0] == P_s
+                        first = is_call(data, "HmacSecretSaltOrOutput::first")
+                        second = isinstance(data, tuple) and data[:1] == ("payload",) and is_call(data[1], "HmacSecretSaltOrOutput::second")
                         if not (first or second):
                             bad_data.append("HMAC data %s" % flow.term_str(data)[:80])
-                    # first output from the first salt
-                    nw = find(o.value, lambda x: is_call(x, "HmacSecretSaltOrOutput::new"))
+                        else:
+                            x_ = data[2][0] if first else data[1][2][0]
+                            salts_x.add(flow.strip_sites(x_))
+                            if has(x_, lambda y: y == P_c):
+                                bad_data.append("HMAC data derives from the stored secrets")
+                    if len(salts_x) > 1:
+                        bad_data.append("first and second salt come from different records")
+                    nw = find(o.value, lambda x: is_call(x, "HmacSecretSaltOrOutput::new") and has(x, is_hmac))
                     if nw is None or not (is_hmac(nw[2][0]) and is_call(nw[2][0][2][1], "HmacSecretSaltOrOutput::first")):
                         bad_data.append("first output is not the HMAC of the first salt")
                     elif has(nw[2][1], is_hmac) and not has(nw[2][1], lambda x: is_call(x, "HmacSecretSaltOrOutput::second")):
                         bad_data.append("second output is not the HMAC of the second salt")
-                else:
-                    if uvc and flow.lab_false(uvc[0]) and any(flow.asserts_fail(t, l, lambda y: y == without_uv) for t, l, f, w in o.conds):
+                elif o.variant[:1] == ("Err",):
+                    if uvc and flow.lab_false(uvc[0]) and any(flow.asserts_fail(t, l, is_without_opt) for t, l, f_, w in o.conds):
                         n_err += 1
-                    else:
-                        bad_key.append("an error row other than ¬uv ∧ no non-gated secret")
-            chk.ob("R2 HMAC", "R2|%s|uv-gated-secret-iff-uv" % nm, not bad_key and n_uv > 0 and n_nouv > 0, where(ch), bad_key[0] if bad_key else "%d rows with uv keyed by cred_with_uv, %d rows without uv keyed by cred_without_uv; %d HMAC calls" % (n_uv, n_nouv, n_calls))
-            chk.ob("R2 HMAC", "R2|%s|no-secret-is-error" % nm, n_err > 0, where(ch), "¬uv with no non-gated secret → Err: %d rows" % n_err)
-            chk.ob("R2 HMAC", "R2|%s|data-are-the-salts" % nm, not bad_data, where(ch), bad_data[0] if bad_data else "HMAC data = salts.first() / salts.second(), first output from the first salt")
+            r_ = dict(bad_key=bad_key, bad_data=bad_data, n_uv=n_uv, n_nouv=n_nouv, n_err=n_err, n_calls=n_calls, uv=ui)
+            good = not bad_key and n_uv > 0 and n_nouv > 0
+            if good and (best is None or best["bad_key"]):
+                best = r_
+            elif best is None:
+                best = r_
+        return best
+    if chk.require("R2 HMAC", "R2|hmac-functions", len(hfs) >= 1, "passkey_authenticator", "no function of the authenticator calls hmac_sha256"):
+        # (a site is identified by the function it belongs to — closures count as their function)
+        all_sites = set()
+        for ch in hfs:
+            chk.touched(ch)
+            all_sites.add((ch.path, 0))
+        covered = {}
+        cands = list(hfs) + [x for x in (p.method(AUTH, "make_prf"), p.method(AUTH, "get_prf")) if x is not None and x not in hfs]
+        for f in cands:
+            V = _inl9.inlined(p, f) or f
+            st_ = {(r0, 0) for r0 in ({f.path} | set(getattr(V, "inlined_callees", None) or [])) if (r0, 0) in all_sites}
+            if not st_:
+                continue
+            r_ = key_rule(V, f)
+            if r_ is None:
+                continue
+            for sid in st_:
+                covered.setdefault(sid, []).append((f, r_))
+            uv_index[f.path] = r_["uv"]
+        groups = {}
+        for sid in sorted(all_sites, key=str):
+            owner = sid[0].rsplit("::", 1)[-1]
+            groups.setdefault(owner, []).append(sid)
+        for owner, sids in sorted(groups.items()):
+            miss = [s_ for s_ in sids if s_ not in covered]
+            if not chk.require("R2 HMAC", "R2|%s|roles" % owner, not miss, "passkey_authenticator::" + owner, "hmac_sha256 call(s) of %s are reached through no body that shows both the stored secrets and a uv flag (neither the function itself nor make_prf / get_prf with their private helpers inlined)" % owner):
+                continue
+            # every body that shows the secrets and reaches these calls must gate them
+            fs_ = []
+            for s_ in sids:
+                for fr_ in covered[s_]:
+                    if fr_ not in fs_:
+                        fs_.append(fr_)
+            bad_key = [x for f_, r_ in fs_ for x in r_["bad_key"]]
+            bad_data = [x for f_, r_ in fs_ for x in r_["bad_data"]]
+            n_uv, n_nouv = min(r_["n_uv"] for f_, r_ in fs_), min(r_["n_nouv"] for f_, r_ in fs_)
+            n_err, n_calls = min(r_["n_err"] for f_, r_ in fs_), sum(r_["n_calls"] for f_, r_ in fs_)
+            at = where(fs_[0][0])
+            via = ", ".join(sorted(api_name(f_) for f_, r_ in fs_))
+            chk.ob("R2 HMAC", "R2|%s|uv-gated-secret-iff-uv" % owner, not bad_key and n_uv > 0 and n_nouv > 0, at, bad_key[0] if bad_key else "%d rows with uv keyed by cred_with_uv, %d rows without uv keyed by cred_without_uv; %d HMAC calls (read on %s)" % (n_uv, n_nouv, n_calls, via))
+            chk.ob("R2 HMAC", "R2|%s|no-secret-is-error" % owner, n_err > 0, at, "¬uv with no non-gated secret → Err: %d rows" % n_err)
+            chk.ob("R2 HMAC", "R2|%s|data-are-the-salts" % owner, not bad_data, at, bad_data[0] if bad_data else "HMAC data = first() / second() of one salts record, first output from the first salt")
 
     # ---------------- R3
     mc, ga = ceremony(p, "make_credential"), ceremony(p, "get_assertion")
@@ -253,18 +319,34 @@ def run(chk):
             chk.ob("R3 uv argument", "R3|%s|uv" % callee.split("::")[1], ok, where(co, cs[0][0]), "uv argument = %s (%s verification)" % (flow.term_str(uv)[:160], exp))
     # uv handed down unchanged
     chain = [("make_extensions", "Authenticator::make_prf", p.method(AUTH, "make_prf")), ("get_extensions", "Authenticator::get_prf", p.method(AUTH, "get_prf"))]
+    internal = 0
     for hf in hfs:
-        # callers of the HMAC function among the PRF entry points
+        # callers of the HMAC function among the PRF entry points; where the key rule was read on make_prf / get_prf
+        # themselves (the secrets are selected by a private helper inlined there) their own uv parameter is the one tested
+        # and there is no further link
+        cov_all = [f_ for f_, r_ in (("covered" in dir() and covered.get((hf.path, 0))) or [])]
         for outer in ("make_prf", "get_prf"):
             ob_ = p.method(AUTH, outer)
-            if ob_ is not None and ob_ is not hf and any(names.call_is(t, hf.path) for nb in p.nested_of(ob_) for _bb, t in nb.calls()):
+            if ob_ is None or ob_ is hf:
+                continue
+            reaches = any(x is hf for nb in p.nested_of(ob_) for _bb, t in nb.calls() for x in p.local_callee_bodies(t)) or hf.path in (getattr(_inl9.inlined(p, ob_), "inlined_callees", None) or [])
+            if not reaches:
+                continue
+            if hf in cov_all:
                 chain.append((outer, hf.path, hf))
-    chk.ob("R3 uv argument", "R3|uv-chain", len(chain) >= 4, AUTH, "%d links between the ceremony's extension step and the HMAC function (make/get_extensions → make/get_prf → HMAC)" % len(chain))
+            elif ob_ in cov_all:
+                internal += 1
+                ro_own = param_roles(ob_, uv="bool")["uv"]
+                chk.ob("R3 uv argument", "R3|%s|uv-selects-the-secret-in-place" % outer, ro_own is not None and uv_index.get(ob_.path) == ro_own, where(ob_),
+                       "the secret is selected inside %s (private helpers inlined) by its own uv parameter: %s" % (outer, uv_index.get(ob_.path) == ro_own))
+    chk.ob("R3 uv argument", "R3|uv-chain", len(chain) + internal >= 4, AUTH, "%d links between the ceremony's extension step and the HMAC function (make/get_extensions → make/get_prf → HMAC)" % len(chain))
     for outer, inner, ib in chain:
         b = p.method(AUTH, outer)
         if not chk.require("R3 uv argument", "R3|%s|body" % outer, b, AUTH, "%s not found" % outer):
             continue
         ro_i = param_roles(ib, uv="bool") if ib is not None else {"uv": None}
+        if ib is not None and ro_i["uv"] is None and ib.path in uv_index:
+            ro_i = {"uv": uv_index[ib.path]}     # several bools: the one that selects the key (R2)
         ro_o = param_roles(b, uv="bool")
         if not chk.require("R3 uv argument", "R3|%s->%s|roles" % (outer, inner.rsplit("::", 1)[-1]), ro_i["uv"] is not None and ro_o["uv"] is not None, where(b), "the uv flag parameter is not identified by type"):
             continue
